@@ -25,7 +25,7 @@ REQUIRED_REACH = {"transforms/_unit_scale.py": ["unit_scaling_backend.<locals>.i
                   "transforms/utils.py": ["apply_transform", "replace_node_with_function"]}
 MIN_NONTRIVIAL = {"quick": 120, "thorough": 2500}
 REACH = True
-FORMS = ["embedding", "nn_gelu", "nn_softmax", "linear_2arg", "bias_kw", "conv1d"]
+FORMS = ["embedding", "nn_gelu", "nn_softmax", "linear_2arg", "bias_kw", "conv1d", "nn_conv1d"]
 
 
 def gen_cases(tier: str, seed: int) -> List[Dict[str, Any]]:
